@@ -50,6 +50,8 @@ type gbCase struct {
 	// CloseDuringSend: an Accept's message is held inside the broker stream's send goroutine
 	// (hook grpc.stream.send) while the pair is shut down ("h2p": the plugin's stream, "p2h": the host's)
 	CloseDuringSend string `json:"close_during_send,omitempty"`
+	// CloseDuringDial: client and server are closed while a dial in the given direction waits for its peer
+	CloseDuringDial string `json:"close_during_dial,omitempty"`
 	// StopRace: the owner of an in-process server calls GRPCServer.Stop at the moment the
 	// controller's Shutdown handler (hook grpc.shutdown) is about to do the same
 	StopRace bool `json:"stop_race,omitempty"`
@@ -219,6 +221,33 @@ func runGBCase(c gbCase, bin, tmp string, t *testing.T) map[string]interface{} {
 		cleanup = func() {}
 		out["ests"] = []gbEstObs{}
 		out["stop_race"] = true
+		out["listener_before_ack"] = true
+		return out
+	}
+	if c.CloseDuringDial != "" && c.Pair == "inproc" {
+		// a dial whose peer has not accepted yet (multiplexed: its knock is out, the acknowledgement is not in) is
+		// in flight when client and server are closed
+		e := gbEst{ID: 4343, Dir: c.CloseDuringDial}
+		done := make(chan struct{})
+		go func() {
+			defer close(done)
+			defer func() { recover() }()
+			if e.Dir == "h2p" {
+				stub.Broker.DialWho(e.ID)
+			} else {
+				stub.Do(vp.Cmd{Op: "dial", ID: e.ID})
+			}
+		}()
+		time.Sleep(150 * time.Millisecond)
+		cleanup()
+		cleanup = func() {}
+		select {
+		case <-done:
+		case <-time.After(8 * time.Second):
+			out["dial_never_returned"] = true
+		}
+		out["ests"] = []gbEstObs{}
+		out["closed_during_dial"] = true
 		out["listener_before_ack"] = true
 		return out
 	}
